@@ -70,7 +70,16 @@ SUB4 = [ALPHA.index(s) for s in [(L.CHAR, None, True), (L.INT, None, True), (L.L
                                  (L.LONG, 33, False)]]
 ORDIDX = list(range(len(ORD)))
 ALIGNS = (1, 2, 4, 8, 16, 32, 64)
-ALIGNTYPES = [L.CHAR, L.SHORT, L.INT, L.LONG, L.DOUBLE, L.LDOUBLE]
+class _AT:
+    """operand of _Alignas(type-name) whose size differs from its alignment"""
+
+    def __init__(self, cname, align):
+        self.cname, self.align = cname, align
+
+
+ALIGNTYPES = [L.CHAR, L.SHORT, L.INT, L.LONG, L.DOUBLE, L.LDOUBLE,
+              _AT('struct { int a, b; }', 4), _AT('short[4]', 2), _AT('char[16]', 1), _AT('struct { char c[3]; }', 1), _AT('struct { double d; char c; }', 8), _AT('int[3]', 4),
+              _AT('union { char c[5]; short h; }', 2), _AT('long[2]', 8)]
 
 # ---------------------------------------------------------------------------
 # case construction.  A case descriptor is a small picklable tuple; build() turns it into a Case.
